@@ -175,7 +175,9 @@ def run(ctx):
                     ups[int(ui)] = {"part": int(pi), "kind": kind}
                     if pi == "-1":
                         why.append("upload %s reached user code with bytes/filename/content-type of no part of the request" % ui)
-                    if ind != "i":
+                    if ind == "NOEOF":
+                        why.append("the reader of upload %s never reports io.EOF: it answers 0, nil at the end of the file for ever (io.ReadAll in a resolver does not return)" % ui)
+                    elif ind != "i":
                         why.append("upload %s does not have its own independently seekable reader" % ui)
             for w in why:
                 spec_fail.append((r, w))
